@@ -14,7 +14,7 @@ import nlx
 
 RULE = ('schedules: random API-built designs x seeded worklist tie-breaks (hook PYRTL_VERIF_ITER_SEED) '
         '-> real yield order == Coq worklist model on the same choices, and topological by the Coq checker; '
-        'faults: each of 14 fault classes injected at every applicable site of each design by editing '
+        'faults: each of 16 fault classes injected at every applicable site of each design by editing '
         'block.logic / wire sets directly; distinct by (design, fault, site) or (design, schedule seed); '
         'non-trivial when the design has >= 4 nets')
 IMPORTS = 'From PyRTL Require Import Netlist.Iter Netlist.Sanity.'
@@ -150,6 +150,16 @@ def inject(block, fault, rng):
         replace_net(block, n, LN(n.op, n.op_param, tuple(args), n.dests))
         _keep_connected(block, old)
         return 'arg %d of %s replaced by undriven wire' % (k, n)
+    if fault == 'register_never_driven':
+        rnets = sites(block, lambda n: n.op == 'r')
+        _, dst = block.net_connections()
+        rnets = [n for n in rnets if n.dests[0] in dst]     # the register must be read by someone
+        if not rnets:
+            return None
+        n = rng.choice(rnets)
+        block.logic.remove(n)
+        _keep_connected(block, n.args[0])
+        return 'register %s is read but its next-value net was removed' % n.dests[0].name
     if fault == 'declared_unconnected':
         fresh_wire(block, rng.randint(1, 8), 'floating_w')
         return 'floating wire'
@@ -325,7 +335,7 @@ def _keep_connected(block, w):
     block.logic.add(pyrtl.LogicNet('w', None, (w,), (o,)))
 
 
-FAULTS = ['two_drivers', 'read_never_driven', 'declared_unconnected', 'foreign_wire', 'wrong_arity',
+FAULTS = ['two_drivers', 'read_never_driven', 'register_never_driven', 'declared_unconnected', 'foreign_wire', 'wrong_arity',
           'width_mismatch', 'mux_select_width', 'select_param_oob', 'dest_too_wide', 'param_not_none',
           'input_const_dest', 'output_arg', 'duplicate_name', 'comb_cycle', 'memid_mismatch']
 UNREPRESENTABLE = {'param_not_none', 'memid_mismatch'}
@@ -384,6 +394,14 @@ def run(ctx):
                 d = build(ctx, i)
                 block = d.block
                 rng = ctx.sub_rng('fault', i, fault, site)
+                used_before = rng.random() < 0.5
+                if used_before:
+                    # the block has a history: it was iterated and simulated before being edited
+                    list(block)
+                    sim0 = pyrtl.Simulation(tracer=pyrtl.SimulationTrace(block=block), block=block)
+                    sim0.step({w.name: 0 for w in d.inputs})
+                    list(block)
+                ctx.count('fault_after_prior_use', used_before)
                 try:
                     desc = inject(block, fault, rng)
                 except (IndexError, ValueError):
@@ -393,7 +411,8 @@ def run(ctx):
                     continue
                 ctx.count('faults', fault)
                 ok, kind = real_accepts(block)
-                rep = {'seed': ctx.seed, 'design': i, 'fault': fault, 'site': site, 'what': desc}
+                rep = {'seed': ctx.seed, 'design': i, 'fault': fault, 'site': site, 'what': desc,
+                       'block_iterated_and_simulated_before_edit': used_before}
                 if ok is not False:
                     ctx.spec_violation('malformed-accepted:%s:%s' % (fault, kind or 'accepted'),
                                        'malformed netlist (%s: %s) not rejected with a PyRTL error by '
